@@ -181,17 +181,42 @@ Definition check_groups (groups : list (list Z)) (d : nat) : option (list (list 
     (* return groups + [[i] for i in range(n_features_in) if i not in all_indices] *)
     else Some (groups ++ map (fun i => [i]) (filter (fun i => negb (zmem i all)) (zrange d))).
 
+(* entries of a group as check_groups sees them: `isinstance(i, bool) or not isinstance(i, (int, np.integer))` raises *)
+Inductive gentry := GInt (z : Z) | GBool (b : bool) | GOther.    (* GOther: float, str, None, nested list ... *)
+Definition gentry_int (e : gentry) : option Z := match e with GInt z => Some z | _ => None end.
+Fixpoint all_ints (l : list gentry) : option (list Z) :=
+  match l with
+  | [] => Some []
+  | e :: r => match gentry_int e, all_ints r with Some z, Some zs => Some (z :: zs) | _, _ => None end
+  end.
+Fixpoint all_int_groups (g : list (list gentry)) : option (list (list Z)) :=
+  match g with
+  | [] => Some []
+  | x :: r => match all_ints x, all_int_groups r with Some a, Some b => Some (a :: b) | _, _ => None end
+  end.
+(* if any(isinstance(i, bool) or not isinstance(i, (int, np.integer)) for i in all_indices): raise ValueError ; then as above *)
+Definition check_groups_entries (groups : list (list gentry)) (d : nat) : option (list (list Z)) :=
+  match all_int_groups groups with None => None | Some g => check_groups g d end.
+
 (* ------------------------------------------------------------------------------------------------ cross-parameter rules *)
 (* Kauri.fit: if self.min_samples_leaf * 2 > self.min_samples_split: raise ValueError *)
 Definition kauri_cross_ok (min_samples_leaf min_samples_split : Z) : bool := negb (min_samples_split <? min_samples_leaf * 2)%Z.
-(* Douglas._init_params: if len(self.feature_mask) != X.shape[1]: raise ValueError  (feature_mask=None: no check) *)
-Definition douglas_mask_ok (mask_len : option nat) (d : nat) : bool := match mask_len with None => true | Some l => Nat.eqb l d end.
+(* Douglas._init_params (feature_mask=None: no check):
+     if len(self.feature_mask) != X.shape[1]: raise ValueError
+     cut_points_list_ = [... for i in range(X.shape[1]) if self.feature_mask[i]] ; if len(cut_points_list_) == 0: raise ValueError *)
+Definition douglas_mask_ok (mask : option (list bool)) (d : nat) : bool :=
+  match mask with None => true | Some m => Nat.eqb (List.length m) d && existsb (fun b => b) m end.
 
 (* check_array(X) followed by validate_data(..., ensure_min_samples=m): two-dimensional, numeric, finite,
    at least one feature, at least max(1, m) samples.  m = n_clusters (DiscriminativeModel.fit),
    min_samples_leaf (Kauri.fit). *)
 Definition data_ok (ndim n d : nat) (numeric finite : bool) (min_samples : nat) : bool :=
   Nat.eqb ndim 2 && numeric && finite && Nat.leb 1 d && Nat.leb 1 n && Nat.leb min_samples n.
+
+(* gemini/_geomdistances.py::_check_precomputed(X, y) and the same test in Kauri._compute_kernel: check_array(y) (two-dimensional,
+   numeric, finite) and y.shape[0] == y.shape[1] == len(X) *)
+Definition precomputed_ok (ndim rows cols n : nat) (numeric finite : bool) : bool :=
+  Nat.eqb ndim 2 && numeric && finite && Nat.eqb rows cols && Nat.eqb rows n.
 
 (* ------------------------------------------------------------------------------------------------ fit as checks and writes *)
 (* A fit is a sequence of checks (each passes or raises) and writes of attributes ending in "_". *)
@@ -217,34 +242,31 @@ Record checks := { params_ok : bool; x_ok : bool; samples_ok : bool; groups_ok :
 
 Definition writes (l : list string) : list step := map Write l.
 (* DiscriminativeModel.fit: _validate_params(); check_array(X); validate_data(..., ensure_min_samples=n_clusters) [sets
-   n_features_in_ when it passes]; _init_params (Douglas: mask length test first) ; optimiser_ ; gemini.compute_affinity(X, y)
-   [raises for a missing precomputed matrix or an unusable metric] ; training ; labels_ ; n_iter_ *)
+   n_features_in_ when it passes]; gemini.compute_affinity(X, y) [raises for a missing or ill-shaped precomputed matrix or an
+   unusable metric]; _init_params (Douglas: mask length test first) ; optimiser_ ; training ; labels_ ; n_iter_ *)
 Definition fit_base (weights : list string) (k : checks) : list step :=
-  [Check (params_ok k); Check (x_ok k); Check (samples_ok k); Write "n_features_in_"; Check (cross_ok k)] ++ writes weights ++
-  [Write "optimiser_"; Check (affinity_ok k); Write "labels_"; Write "n_iter_"].
-(* SparseLinearModel.fit / SparseMLPModel.fit: validate_data(self, X); self.groups_ = check_groups(...); super().fit *)
+  [Check (params_ok k); Check (x_ok k); Check (samples_ok k); Write "n_features_in_"; Check (affinity_ok k); Check (cross_ok k)] ++
+  writes weights ++ [Write "optimiser_"; Write "labels_"; Write "n_iter_"].
+(* SparseLinearModel.fit / SparseMLPModel.fit: _validate_params(); X = validate_data(self, X, ensure_min_samples=n_clusters);
+   self.groups_ = check_groups(...); super().fit *)
 Definition fit_sparse (weights : list string) (k : checks) : list step :=
-  [Check (x_ok k); Write "n_features_in_"; Check (groups_ok k); Write "groups_"] ++ fit_base weights k.
-(* KernelRIM.fit: check_array(X); input_data_; training_kernel_ = _compute_kernel(X) [raises for an unusable kernel];
-   super().fit(kernel) ; n_features_in_ *)
+  [Check (params_ok k); Check (x_ok k); Check (samples_ok k); Write "n_features_in_"; Check (groups_ok k); Write "groups_"] ++ fit_base weights k.
+(* KernelRIM.fit: _validate_params(); check_array(X); input_data_; training_kernel_ = _compute_kernel(X) [raises for an
+   unusable kernel]; super().fit(kernel) [the min-samples test is there] ; n_features_in_ *)
 Definition fit_kernelrim (k : checks) : list step :=
-  [Check (x_ok k); Write "input_data_"; Check (affinity_ok k); Write "training_kernel_"] ++ fit_base ["W_"; "b_"] k.
+  [Check (params_ok k); Check (x_ok k); Write "input_data_"; Check (affinity_ok k); Write "training_kernel_"] ++ fit_base ["W_"; "b_"] k.
 (* Kauri.fit: _validate_params(); check_array; validate_data(ensure_min_samples=min_samples_leaf) [n_features_in_];
-   cross rule; kernel; tree_ ...; labels_; leaves_ *)
+   cross rule; kernel [precomputed: two-dimensional, square, one row per sample]; tree_ ...; labels_; leaves_ *)
 Definition fit_kauri (k : checks) : list step :=
   [Check (params_ok k); Check (x_ok k); Check (samples_ok k); Write "n_features_in_"; Check (cross_ok k); Check (affinity_ok k);
    Write "tree_"; Write "labels_"; Write "leaves_"].
 (* the order the property asks for: all checks, then all writes *)
 Definition fit_validate_first (attrs : list string) (k : checks) : list step :=
   [Check (params_ok k); Check (x_ok k); Check (samples_ok k); Check (groups_ok k); Check (cross_ok k); Check (affinity_ok k)] ++ writes attrs.
-(* the sparse models read X.shape after validate_data: a list of lists (valid data) is rejected with an AttributeError *)
-Definition sparse_data_ok (has_shape : bool) (ndim n d : nat) (numeric finite : bool) (min_samples : nat) : bool :=
-  has_shape && data_ok ndim n d numeric finite min_samples.
-
 (* helpers for the OCaml driver (arbitrary-precision literals are built with the extracted arithmetic) *)
 Definition zadd := Z.add.
 Definition zmul := Z.mul.
 Definition zopp := Z.opp.
 Definition zltb := Z.ltb.
 Definition mkq (n : Z) (d : positive) : Q := Qmake n d.
-(* EXTRACT: value ext constraint satisfied satisfied_any effective_sat lookup_param check_groups kauri_cross_ok douglas_mask_ok data_ok run validate_first fit_base fit_sparse fit_kernelrim fit_kauri fit_validate_first sparse_data_ok zadd zmul zopp zltb mkq subclass_of has_method *)
+(* EXTRACT: value ext constraint satisfied satisfied_any effective_sat lookup_param check_groups check_groups_entries kauri_cross_ok douglas_mask_ok data_ok precomputed_ok run validate_first fit_base fit_sparse fit_kernelrim fit_kauri fit_validate_first zadd zmul zopp zltb mkq subclass_of has_method *)
